@@ -1,3 +1,768 @@
--- stub: replaced by the property author
+import SupervisorModel.Lemmas.Child
+/-
+  C18 — a child runs the command only in the environment it was promised.
+
+  `childLog c orc` (Model/Child.lean) is the ordered log of system calls of `_spawn_as_child`
+  for configuration `c` under the fault oracle `orc` (position → call → failure).  All theorems
+  below are for EVERY configuration and EVERY oracle.  The conditions, constants, message texts
+  and exception guards the model uses are regenerated from /repo on every run (`Sv.Gen.Child`).
+
+  Layout: (1) the promise in the property's own terms; (2) auxiliary lemmas (namespace
+  `Sv.Child.Aux`, not property statements); (3) the property theorems (namespace `Sv.Props.C18`).
+-/
+set_option linter.unusedSimpArgs false
+set_option linter.unusedVariables false
+
+/-! ## 1. The promise -/
 namespace Sv.Props.C18
+open Sv Sv.Child Sv.Gen.Child
+
+/-- `close(fd)` for every descriptor from 3 up to, not including, `minfds` (see `mem_pyRange`) -/
+def closeCalls (minfds : Int) : List Call := (pyRange 3 minfds).map Call.close
+
+/-- switching to the configured user: look the uid up, compare with the current uid, and unless
+    it is already ours set the supplementary groups (primary gid first), the gid and the uid -/
+def userCalls (c : Cfg) : List Call :=
+  match c.uid with
+  | none => []
+  | some u => [.getpwuid u, .getuid] ++
+      (if c.curUid = u then [] else [.getgrall, .setgroups (groupList c), .setgid c.pwGid, .setuid u])
+
+/-- everything that must have happened, in this order, before `execve` is attempted -/
+def promisedCalls (c : Cfg) : List Call :=
+  [.setpgrp] ++ (if c.fcgi then [.sockFileno] else []) ++
+  [.dup2 (if c.fcgi then c.sockFd else c.pin) 0, .dup2 c.pout 1,
+   .dup2 (if c.redirect then c.pout else c.perr) 2] ++
+  closeCalls c.minfds ++ userCalls c ++
+  (match c.directory with | some d => [.chdir d] | none => []) ++
+  (match c.umask with | some m => [.umask m] | none => [])
+
+/-- the configured user can be assumed at all: it is the current one, or we are root -/
+def CanSwitch (c : Cfg) : Prop := ∀ u, c.uid = some u → c.curUid = u ∨ c.curUid = 0
+
+/-- a call that succeeded — or a `close` that raised OSError (EBADF: the descriptor was not open),
+    which `close_fd` ignores -/
+def OkEv (e : Ev) : Prop := e.res = none ∨ ∃ fd errno name, e = ⟨.close fd, some (.oserr errno name)⟩
+
+/-- the last binding of `k` in a list of bindings -/
+def lookupLast : Env → String → Option String
+  | [], _ => none
+  | (k', v) :: rest, k =>
+    match lookupLast rest k with
+    | some x => some x
+    | none => if k' = k then some v else none
+
+/-- the server URL a child is told: the program's own `serverurl`, else supervisord's -/
+def effectiveUrl (c : Cfg) : Option String := match c.serverurl with | some u => some u | none => c.optServerurl
+
+/-- SUPERVISOR_* variables in the order they are set -/
+def supervisorVars (c : Cfg) : Env :=
+  [("SUPERVISOR_ENABLED", "1")] ++
+  (match effectiveUrl c with | some u => if u.isEmpty then [] else [("SUPERVISOR_SERVER_URL", u)] | none => []) ++
+  [("SUPERVISOR_PROCESS_NAME", c.name)] ++
+  (match c.group with | some g => [("SUPERVISOR_GROUP_NAME", g)] | none => [])
+
+/-- supervisord's own environment, overlaid with SUPERVISOR_*, overlaid with the configured one -/
+def promisedLookup (c : Cfg) (k : String) : Option String :=
+  match lookupLast (c.environment.getD []) k with
+  | some v => some v
+  | none =>
+    match lookupLast (supervisorVars c) k with
+    | some v => some v
+    | none => envGet c.osenv k
+
+/-- reason written for a failing `umask`/`execve` -/
+def execReason (c : Cfg) : Fail → Option String
+  | .oserr _ n => c.argv.head?.map fun a => msgExec a n
+  | .keyerr d => some (msgExecOther c.filename d)
+  | .other d => some (msgExecOther c.filename d)
+
+/-- the failures of the user switch, of the directory change and of the exec for which the child
+    writes a reason, with that reason.  Not in the table (see `failure_message_and_127_partial`):
+    `setuid` raising (F22) and exception classes the code does not anticipate at a call. -/
+def reasonFor (c : Cfg) : Call → Fail → Option String
+  | .getpwuid u, .keyerr _ => some (msgSetuid u (reasonNoUid u))
+  | .setgroups _, .oserr _ _ => c.uid.map fun u => msgSetuid u reasonGroups
+  | .setgid _, .oserr _ _ => c.uid.map fun u => msgSetuid u reasonGid
+  | .chdir d, .oserr _ n => some (msgChdir d n)
+  | .umask _, f => execReason c f
+  | .execve _ _ _, f => execReason c f
+  | _, _ => none
+
+/-- an entry after which the process no longer runs supervisord's code -/
+def Terminal (e : Ev) : Prop := (∃ n, e.call = .exit n) ∨ (e.call.isExecve = true ∧ e.res = none)
+
+/-- the two calls that end every run in which the command was not executed -/
+def lastWords (r : Option Fail) : List Ev :=
+  [⟨.write 2 "supervisor: child process was not spawned\n", r⟩, ⟨.exit 127, none⟩]
+
+end Sv.Props.C18
+
+/-! ## 2. Auxiliary lemmas -/
+namespace Sv.Child.Aux
+open Sv Sv.Child Sv.Gen.Child Sv.Props.C18
+
+theorem finalEvs_eq (orc : Oracle) (n : Nat) : ∃ r, finalEvs orc n = lastWords r :=
+  ⟨orc n (.write write_fd msg_not_spawned), rfl⟩
+
+theorem envGet_envSet (k v k' : String) : ∀ e : Env,
+    envGet (envSet k v e) k' = if k = k' then some v else envGet e k' := by
+  intro e
+  induction e with
+  | nil => simp [envSet, envGet]
+  | cons kv rest ih =>
+    obtain ⟨a, b⟩ := kv
+    by_cases h : a = k
+    · subst h
+      by_cases h2 : a = k' <;> simp [envSet, envGet, h2]
+    · by_cases h2 : a = k'
+      · subst h2; simp [envSet, envGet, h, Ne.symm h]
+      · simp [envSet, envGet, h, h2, ih]
+
+theorem envGet_envUpdate (k : String) : ∀ (d e : Env),
+    envGet (envUpdate e d) k = match lookupLast d k with | some v => some v | none => envGet e k := by
+  intro d
+  induction d with
+  | nil => intro e; simp [envUpdate, lookupLast]
+  | cons kv rest ih =>
+    intro e
+    obtain ⟨a, b⟩ := kv
+    have := ih (envSet a b e)
+    simp only [envUpdate, List.foldl_cons] at this ⊢
+    rw [this, lookupLast]
+    cases lookupLast rest k with
+    | some x => rfl
+    | none => simp only [envGet_envSet]; split <;> rfl
+
+theorem childEnv_eq (c : Cfg) :
+    childEnv c = envUpdate (envUpdate c.osenv (supervisorVars c)) (c.environment.getD []) := by
+  simp only [childEnv, supervisorVars, effectiveUrl, spawnChild_g1, spawnChild_g2, spawnChild_g3, spawnChild_g4,
+    env_key_enabled, env_val_enabled, env_key_server_url, env_key_process_name, env_key_group_name]
+  cases hs : c.serverurl <;> cases ho : c.optServerurl <;> cases hg : c.group <;> cases he : c.environment <;>
+    simp [envUpdate] <;> split <;> simp_all [envUpdate]
+
+theorem mem_specSteps_isPrep (c : Cfg) : ∀ c' h, Step.sys c' h ∈ specSteps c → c'.isPrep = true := by
+  intro c' h hm
+  rw [← preSteps_eq] at hm
+  exact mem_preSteps_isPrep c c' h hm
+
+/-- a step's failure is swallowed only for `close` raising OSError -/
+theorem swallow_only_close (c : Cfg) : ∀ c' h f, Step.sys c' h ∈ specSteps c → h f = .swallow →
+    ∃ fd e n, c' = .close fd ∧ f = .oserr e n := by
+  intro c' h f hm hs
+  simp only [specSteps, specFd, specPriv, specPrivTail, specDir, specUmask, List.mem_append, List.mem_cons,
+    List.mem_map, List.mem_singleton] at hm
+  rcases hm with (((hm | hm) | hm) | hm) | hm
+  · rcases hm with hm | hm
+    · cases hm; simp [hPropagate] at hs
+    · simp at hm
+  · rcases hm with (hm | hm) | hm
+    · split at hm
+      · simp at hm; rcases hm with ⟨rfl, rfl⟩; simp [hPropagate] at hs
+      · simp at hm
+    · rcases hm with hm | hm | hm | hm
+      · cases hm; simp [hPropagate] at hs
+      · cases hm; simp [hPropagate] at hs
+      · cases hm; simp [hPropagate] at hs
+      · simp at hm
+    · obtain ⟨fd, _, hfd⟩ := hm
+      cases hfd
+      cases f <;> simp [hClose] at hs
+      exact ⟨fd, _, _, rfl, rfl⟩
+  · split at hm
+    · simp at hm
+    · simp only [List.mem_append, List.mem_cons] at hm
+      rcases hm with (hm | hm | hm) | hm
+      · cases hm; cases f <;> simp [hGuarded] at hs
+      · cases hm; cases f <;> simp [hGuarded] at hs
+      · simp at hm
+      · split at hm
+        · simp at hm
+        · split at hm
+          · simp at hm
+          · simp at hm
+            rcases hm with ⟨rfl, rfl⟩ | ⟨rfl, rfl⟩ | ⟨rfl, rfl⟩ | ⟨rfl, rfl⟩ <;> cases f <;> simp [hGuarded] at hs
+  · split at hm
+    · simp at hm; rcases hm with ⟨rfl, rfl⟩; cases f <;> simp [hChdir] at hs
+    · simp at hm
+  · split at hm
+    · simp at hm; rcases hm with ⟨rfl, rfl⟩
+      cases f <;> simp [hExec] at hs
+      split at hs <;> simp at hs
+    · simp at hm
+
+/-- a failure listed in `reasonFor` is reported by the step's handler with exactly that reason -/
+theorem reported_handler (c : Cfg) : ∀ c' h f m, Step.sys c' h ∈ specSteps c → reasonFor c c' f = some m →
+    h f = .report m := by
+  intro c' h f m hm hr
+  simp only [specSteps, specFd, specPriv, specPrivTail, specDir, specUmask, List.mem_append, List.mem_cons,
+    List.mem_map, List.mem_singleton] at hm
+  rcases hm with (((hm | hm) | hm) | hm) | hm
+  · rcases hm with hm | hm
+    · cases hm; simp [reasonFor] at hr
+    · simp at hm
+  · rcases hm with (hm | hm) | hm
+    · split at hm
+      · simp at hm; rcases hm with ⟨rfl, rfl⟩; simp [reasonFor] at hr
+      · simp at hm
+    · rcases hm with hm | hm | hm | hm
+      · cases hm; simp [reasonFor] at hr
+      · cases hm; simp [reasonFor] at hr
+      · cases hm; simp [reasonFor] at hr
+      · simp at hm
+    · obtain ⟨fd, _, hfd⟩ := hm
+      cases hfd; simp [reasonFor] at hr
+  · split at hm
+    · simp at hm
+    · rename_i u hu
+      simp only [List.mem_append, List.mem_cons] at hm
+      rcases hm with (hm | hm | hm) | hm
+      · cases hm; cases f <;> simp [reasonFor] at hr
+        simp [hGuarded, hr]
+      · cases hm; simp [reasonFor] at hr
+      · simp at hm
+      · split at hm
+        · simp at hm
+        · split at hm
+          · simp at hm
+          · simp at hm
+            rcases hm with ⟨rfl, rfl⟩ | ⟨rfl, rfl⟩ | ⟨rfl, rfl⟩ | ⟨rfl, rfl⟩
+            · simp [reasonFor] at hr
+            · cases f <;> simp [reasonFor, hu] at hr
+              simp [hGuarded, hr]
+            · cases f <;> simp [reasonFor, hu] at hr
+              simp [hGuarded, hr]
+            · simp [reasonFor] at hr
+  · split at hm
+    · simp at hm; rcases hm with ⟨rfl, rfl⟩
+      cases f <;> simp [reasonFor] at hr
+      simp [hChdir, hr]
+    · simp at hm
+  · split at hm
+    · simp at hm; rcases hm with ⟨rfl, rfl⟩
+      cases f <;> simp [reasonFor, execReason] at hr
+      · obtain ⟨a, ha, hr⟩ := hr
+        cases hargv : c.argv with
+        | nil => simp [hargv] at ha
+        | cons x xs => simp [hargv] at ha; subst ha; simp [hExec, hargv, hr]
+      · simp [hExec, hr]
+      · simp [hExec, hr]
+    · simp at hm
+
+theorem execReason_handler (c : Cfg) (f : Fail) (m : String) (h : execReason c f = some m) :
+    hExec c.filename c.argv f = .report m := by
+  cases f <;> simp [execReason] at h
+  · obtain ⟨a, ha, hr⟩ := h
+    cases hargv : c.argv with
+    | nil => simp [hargv] at ha
+    | cons x xs => simp [hargv] at ha; subst ha; simp [hExec, hargv, hr]
+  · simp [hExec, h]
+  · simp [hExec, h]
+
+/-- without a refusal step the script's calls are exactly the promised ones -/
+theorem calls_specSteps (c : Cfg) (h : NoRefuse (specSteps c)) :
+    calls (specSteps c) = promisedCalls c ∧ CanSwitch c := by
+  have hcs : CanSwitch c := by
+    intro u hu
+    by_cases h1 : c.curUid = u
+    · exact Or.inl h1
+    · by_cases h2 : c.curUid = 0
+      · exact Or.inr h2
+      · exfalso
+        apply h (msgSetuid u reasonNonRoot)
+        simp [specSteps, specPriv, specPrivTail, hu, h1, h2]
+  refine ⟨?_, hcs⟩
+  simp only [specSteps, promisedCalls, calls_append, specFd, closeCalls, calls_map_sys, specDir, specUmask]
+  congr 1
+  · congr 1
+    · congr 1
+      · cases c.fcgi <;> simp [calls]
+      · simp only [specPriv, userCalls]
+        cases hu : c.uid with
+        | none => simp [calls]
+        | some u =>
+          simp only [calls_append, specPrivTail]
+          rcases hcs u hu with h1 | h2
+          · simp [h1, calls]
+          · by_cases h1 : c.curUid = u
+            · simp [h1, calls]
+            · simp only [if_neg h1, if_neg (show ¬ (c.curUid ≠ 0) by simp [h2])]
+              simp [calls]
+    · cases c.directory <;> simp [calls]
+  · cases c.umask <;> simp [calls]
+
+theorem refuse_mem_specSteps (c : Cfg) (m : String) (h : Step.refuse m ∈ specSteps c) :
+    ∃ u, c.uid = some u ∧ c.curUid ≠ u ∧ c.curUid ≠ 0 ∧ m = msgSetuid u reasonNonRoot := by
+  simp only [specSteps, specFd, specPriv, specPrivTail, specDir, specUmask, List.mem_append, List.mem_cons,
+    List.mem_map, List.mem_singleton] at h
+  rcases h with (((h | h) | h) | h) | h
+  · simp at h
+  · rcases h with (h | h) | h
+    · split at h <;> simp at h
+    · simp at h
+    · obtain ⟨_, _, h⟩ := h; cases h
+  · split at h
+    · simp at h
+    · rename_i u hu
+      simp only [List.mem_append, List.mem_cons] at h
+      rcases h with (h | h | h) | h
+      · cases h
+      · cases h
+      · simp at h
+      · split at h
+        · simp at h
+        · rename_i h1
+          split at h
+          · rename_i h2
+            simp at h
+            exact ⟨u, hu, h1, h2, h⟩
+          · simp at h
+  · split at h <;> simp at h
+  · split at h <;> simp at h
+
+end Sv.Child.Aux
+
+/-! ## 3. The property theorems -/
+namespace Sv.Props.C18
+open Sv Sv.Child Sv.Gen.Child Sv.Child.Aux
+
+/-- the descriptors closed are exactly 3 … minfds−1 -/
+theorem mem_pyRange (lo hi x : Int) : x ∈ pyRange lo hi ↔ lo ≤ x ∧ x < hi := by
+  simp only [pyRange, List.mem_map, List.mem_range]
+  constructor
+  · rintro ⟨i, hi', rfl⟩; omega
+  · intro ⟨h1, h2⟩; exact ⟨(x - lo).toNat, by omega, by omega⟩
+
+/-- **Environment.**  The environment handed to `execve` is supervisord's own, overlaid with
+    SUPERVISOR_ENABLED, SUPERVISOR_SERVER_URL (when a non-empty URL is known),
+    SUPERVISOR_PROCESS_NAME, SUPERVISOR_GROUP_NAME (when in a group), overlaid with the
+    configured environment — later overriding earlier, for every variable name. -/
+theorem env_composition (c : Cfg) (k : String) : envGet (childEnv c) k = promisedLookup c k := by
+  rw [childEnv_eq, envGet_envUpdate, envGet_envUpdate, promisedLookup]
+
+/-- the three shapes of a run of the child, used by all theorems below -/
+theorem childLog_cases (c : Cfg) (orc : Oracle) :
+    (∃ d, d.map (·.call) = promisedCalls c ∧ CanSwitch c ∧ (∀ e ∈ d, OkEv e ∧ e.call.isPrep = true) ∧
+        childLog c orc = execStage c orc d) ∨
+    (∃ d bad a, (∀ e ∈ d, OkEv e ∧ e.call.isPrep = true) ∧ bad.call.isPrep = true ∧ bad.res ≠ none ∧ ¬ OkEv bad ∧
+        (∀ f m, bad.res = some f → reasonFor c bad.call f = some m → a = .report m) ∧
+        childLog c orc = finish orc a (d ++ [bad])) ∨
+    (∃ d u, (∀ e ∈ d, OkEv e ∧ e.call.isPrep = true) ∧ c.uid = some u ∧ c.curUid ≠ u ∧ c.curUid ≠ 0 ∧
+        childLog c orc = finish orc (.report (msgSetuid u reasonNonRoot)) d) := by
+  have hd : ∀ d, FromSteps (specSteps c) d → ∀ e ∈ d, OkEv e ∧ e.call.isPrep = true := by
+    intro d hfrom e he
+    obtain ⟨c', h, hm, hc, hr⟩ := hfrom e he
+    refine ⟨?_, by rw [hc]; exact mem_specSteps_isPrep c c' h hm⟩
+    rcases hr with hr | ⟨f, hf, hs⟩
+    · exact Or.inl hr
+    · obtain ⟨fd, en, n, h1, h2⟩ := swallow_only_close c c' h f hm hs
+      refine Or.inr ⟨fd, en, n, ?_⟩
+      cases e; simp_all
+  unfold childLog
+  rw [preSteps_eq]
+  rcases run_cases orc (execStage c orc) (specSteps c) [] with
+    ⟨d, hnr, hcalls, hfrom, hrun⟩ | ⟨d, c', h, f, hmem, hfrom, hns, hrun⟩ | ⟨d, m, hmem, hfrom, hrun⟩
+  · obtain ⟨h1, h2⟩ := calls_specSteps c hnr
+    exact Or.inl ⟨d, by rw [hcalls, h1], h2, hd d hfrom, by simpa using hrun⟩
+  · refine Or.inr (Or.inl ⟨d, ⟨c', some f⟩, h f, hd d hfrom, mem_specSteps_isPrep c c' h hmem, by simp, ?_, ?_, by simpa using hrun⟩)
+    · rintro (h0 | ⟨fd, en, n, h0⟩)
+      · simp at h0
+      · cases h0
+        -- a close raising OSError is swallowed by its handler, so it cannot be the failing step
+        have : Step.sys (.close fd) h ∈ specSteps c := hmem
+        simp only [specSteps, specFd, specPriv, specPrivTail, specDir, specUmask, List.mem_append, List.mem_cons,
+          List.mem_map, List.mem_singleton] at this
+        rcases this with (((hm | hm) | hm) | hm) | hm
+        · simp at hm
+        · rcases hm with (hm | hm) | hm
+          · split at hm <;> simp at hm
+          · simp at hm
+          · obtain ⟨_, _, hfd⟩ := hm
+            cases hfd; simp [hClose] at hns
+        · split at hm
+          · simp at hm
+          · simp only [List.mem_append, List.mem_cons] at hm
+            rcases hm with (hm | hm | hm) | hm
+            · cases hm
+            · cases hm
+            · simp at hm
+            · split at hm
+              · simp at hm
+              · split at hm <;> simp at hm
+        · split at hm <;> simp at hm
+        · split at hm <;> simp at hm
+    · intro f' m hf hr
+      cases hf
+      exact reported_handler c c' h f m hmem hr
+  · obtain ⟨u, hu, h1, h2, rfl⟩ := refuse_mem_specSteps c m hmem
+    exact Or.inr (Or.inr ⟨d, u, hd d hfrom, hu, h1, h2, by simpa using hrun⟩)
+
+/-- **exec_preconditions.**  Wherever an `execve` appears in the log (attempted, successful or
+    not), it is the configured command with the promised environment, the calls before it are
+    exactly the promised ones in the promised order — new process group; descriptors 0, 1, 2 from
+    the right sources (FastCGI socket as 0 for fcgi programs, the stdout pipe as 2 exactly when
+    `redirect_stderr`); a close of every descriptor 3 … minfds−1; the user switch; the directory;
+    the umask — every one of them succeeded (a `close` may have found its descriptor not open),
+    and the configured user could be assumed. -/
+theorem exec_preconditions (c : Cfg) (orc : Oracle) (pre post : List Ev) (ev : Ev)
+    (hlog : childLog c orc = pre ++ ev :: post) (hex : ev.call.isExecve = true) :
+    ev.call = .execve c.filename c.argv (childEnv c) ∧
+    pre.map (·.call) = promisedCalls c ∧ (∀ e ∈ pre, OkEv e) ∧ CanSwitch c := by
+  have hQ : ∀ d : List Ev, (∀ e ∈ d, OkEv e ∧ e.call.isPrep = true) → ∀ e ∈ d, ¬ (e.call.isExecve = true) := by
+    intro d hd e he hx
+    have := (hd e he).2
+    cases hc : e.call <;> simp_all [Call.isExecve, Call.isPrep]
+  have notexec_final : ∀ n, ∀ e ∈ finalEvs orc n, ¬ (e.call.isExecve = true) := by
+    intro n e he; simp [finalEvs] at he; rcases he with rfl | rfl <;> simp [Call.isExecve]
+  rcases childLog_cases c orc with ⟨d, hcalls, hcs, hd, hrun⟩ | ⟨d, bad, a, hd, hprep, _, _, _, hrun⟩ | ⟨d, u, hd, _, _, _, hrun⟩
+  · rw [hrun] at hlog
+    unfold execStage at hlog
+    split at hlog
+    · obtain ⟨t1, h1, h2⟩ := skip_prefix (fun e => e.call.isExecve = true) hex d pre (hQ d hd) hlog.symm
+      cases t1 with
+      | nil => simp at h2; simp at h1; subst h1; rw [← h2.1]; exact ⟨rfl, hcalls, fun e he => (hd e he).1, hcs⟩
+      | cons x t1 => simp at h2
+    · rename_i f hf
+      obtain ⟨t, hfin, ht⟩ := finish_shape orc (hExec c.filename c.argv f) (d ++ [⟨execCall c, some f⟩])
+      rw [hfin] at hlog
+      simp only [List.append_assoc] at hlog
+      obtain ⟨t1, h1, h2⟩ := skip_prefix (fun e => e.call.isExecve = true) hex d pre (hQ d hd) hlog.symm
+      cases t1 with
+      | nil => simp at h2; simp at h1; subst h1; rw [← h2.1]; exact ⟨rfl, hcalls, fun e he => (hd e he).1, hcs⟩
+      | cons x t1 =>
+        exfalso
+        simp at h2
+        have hmem : ev ∈ t1 ++ ev :: post := by simp
+        rw [← h2.2] at hmem
+        rcases List.mem_append.mp hmem with hm | hm
+        · rcases ht with rfl | ⟨m, _, rfl⟩
+          · simp at hm
+          · simp at hm; subst hm; simp [Call.isExecve] at hex
+        · exact notexec_final _ ev hm hex
+  · exfalso
+    obtain ⟨t, hfin, ht⟩ := finish_shape orc a (d ++ [bad])
+    rw [hrun, hfin] at hlog
+    have hmem : ev ∈ d ++ [bad] ++ t ++ finalEvs orc ((d ++ [bad]).length + t.length) := by rw [hlog]; simp
+    simp only [List.mem_append, List.mem_singleton] at hmem
+    rcases hmem with ((hm | hm) | hm) | hm
+    · exact hQ d hd ev hm hex
+    · subst hm; cases hc : ev.call <;> simp_all [Call.isExecve, Call.isPrep]
+    · rcases ht with rfl | ⟨m, _, rfl⟩
+      · simp at hm
+      · simp at hm; subst hm; simp [Call.isExecve] at hex
+    · exact notexec_final _ ev hm hex
+  · exfalso
+    rw [hrun, finish_report] at hlog
+    have hmem : ev ∈ d ++ ⟨.write write_fd (msgSetuid u reasonNonRoot), orc d.length (.write write_fd (msgSetuid u reasonNonRoot))⟩ :: finalEvs orc (d.length + 1) := by
+      rw [hlog]; simp
+    simp only [List.mem_append, List.mem_cons] at hmem
+    rcases hmem with hm | hm | hm
+    · exact hQ d hd ev hm hex
+    · subst hm; simp [Call.isExecve] at hex
+    · exact notexec_final _ ev hm hex
+
+/-- **no_exec_after_failure.**  Once any call has failed (other than a `close` that found its
+    descriptor not open) no `execve` is attempted later in the log — in particular never after a
+    failed user switch or directory change. -/
+theorem no_exec_after_failure (c : Cfg) (orc : Oracle) (pre mid post : List Ev) (bad ev : Ev)
+    (hlog : childLog c orc = pre ++ bad :: (mid ++ ev :: post)) (hbad : ¬ OkEv bad) :
+    ev.call.isExecve = false := by
+  cases hx : ev.call.isExecve with
+  | false => rfl
+  | true =>
+    exfalso
+    have h := exec_preconditions c orc (pre ++ bad :: mid) post ev (by simpa using hlog) hx
+    exact hbad (h.2.2.1 bad (by simp))
+
+/-- a configured user that cannot be assumed (not the current uid, and not root) means the
+    command is never executed, whatever else happens -/
+theorem no_exec_with_wrong_identity (c : Cfg) (orc : Oracle) (u : Int) (hu : c.uid = some u)
+    (h1 : c.curUid ≠ u) (h2 : c.curUid ≠ 0) : ∀ ev ∈ childLog c orc, ev.call.isExecve = false := by
+  intro ev hev
+  cases hx : ev.call.isExecve with
+  | false => rfl
+  | true =>
+    exfalso
+    obtain ⟨pre, post, hsplit⟩ := List.append_of_mem hev
+    have h := (exec_preconditions c orc pre post ev hsplit hx).2.2.2 u hu
+    rcases h with h | h
+    · exact h1 h
+    · exact h2 h
+
+/-- … and unless something failed even earlier, the refusal is written to descriptor 2 followed by
+    the final message and `_exit(127)` -/
+theorem nonroot_refusal_reported (c : Cfg) (orc : Oracle) (u : Int) (hu : c.uid = some u)
+    (h1 : c.curUid ≠ u) (h2 : c.curUid ≠ 0) :
+    (∃ bad ∈ childLog c orc, ¬ OkEv bad) ∨
+    (∃ d r1 r2, childLog c orc = d ++ ⟨.write 2 (msgSetuid u reasonNonRoot), r1⟩ :: lastWords r2) := by
+  rcases childLog_cases c orc with ⟨d, _, hcs, _, _⟩ | ⟨d, bad, a, _, _, _, hnok, _, hrun⟩ | ⟨d, u', _, hu', _, _, hrun⟩
+  · rcases hcs u hu with h | h
+    · exact absurd h h1
+    · exact absurd h h2
+  · left
+    obtain ⟨t, hfin, _⟩ := finish_shape orc a (d ++ [bad])
+    exact ⟨bad, by rw [hrun, hfin]; simp, hnok⟩
+  · right
+    rw [hu] at hu'; cases hu'
+    obtain ⟨r, hr⟩ := finalEvs_eq orc (d.length + 1)
+    exact ⟨d, _, r, by rw [hrun, finish_report, hr]; rfl⟩
+
+/-- **failure_message_and_127** (partial: see below).  When a call of the user switch, the
+    directory change or the exec fails with a failure listed in `reasonFor`, the very next call
+    writes that reason to descriptor 2, then the final message is written and the child exits
+    with status 127 — and that is the whole rest of the log, whether or not the writes succeed.
+
+    PARTIAL.  The full statement would quantify over *every* failure of `getpwuid`, `setgroups`,
+    `setgid`, `setuid`, `chdir`, `umask`, `execve`.  Missing: **F22** — `os.setuid` is called outside
+    any `try` in `drop_privileges`, so when it raises (EPERM, EAGAIN) no reason is written
+    (`f22_setuid_raises_no_reason`); and exception classes the code does not anticipate at a call
+    (a non-OSError from `chdir`/`setgid`/`setgroups`, an OSError from `getpwuid`).  For all of
+    those `any_failure_exits_127` still gives: no exec, final message, `_exit(127)`. -/
+theorem failure_message_and_127_partial (c : Cfg) (orc : Oracle) (pre post : List Ev) (bad : Ev)
+    (f : Fail) (m : String) (hlog : childLog c orc = pre ++ bad :: post)
+    (hf : bad.res = some f) (hr : reasonFor c bad.call f = some m) :
+    ∃ r1 r2, post = ⟨.write 2 m, r1⟩ :: lastWords r2 := by
+  -- the property of `bad` that no clean event has
+  have hQ : ∀ d : List Ev, (∀ e ∈ d, OkEv e ∧ e.call.isPrep = true) →
+      ∀ e ∈ d, ¬ (e.res = some f ∧ reasonFor c e.call f = some m) := by
+    intro d hd e he ⟨h1, h2⟩
+    rcases (hd e he).1 with h | ⟨fd, en, n, rfl⟩
+    · rw [h] at h1; cases h1
+    · simp at h1; subst h1; simp [reasonFor] at h2
+  have hfinal : ∀ n, ∀ e ∈ finalEvs orc n, ¬ (e.res = some f ∧ reasonFor c e.call f = some m) := by
+    intro n e he ⟨_, h2⟩
+    simp [finalEvs] at he
+    rcases he with rfl | rfl <;> simp [reasonFor] at h2
+  have hwrite : ∀ fd s r, ¬ ((⟨.write fd s, r⟩ : Ev).res = some f ∧ reasonFor c (Call.write fd s) f = some m) := by
+    intro fd s r ⟨_, h2⟩; simp [reasonFor] at h2
+  have tail3 : ∀ (n : Nat) (x : Ev), ∃ r2, finalEvs orc n = lastWords r2 := fun n _ => finalEvs_eq orc n
+  rcases childLog_cases c orc with ⟨d, _, _, hd, hrun⟩ | ⟨d, bad', a, hd, _, _, _, ha, hrun⟩ | ⟨d, u, hd, _, _, _, hrun⟩
+  · rw [hrun] at hlog
+    unfold execStage at hlog
+    split at hlog
+    · obtain ⟨t1, _, h2⟩ := skip_prefix (fun e => e.res = some f ∧ reasonFor c e.call f = some m) ⟨hf, hr⟩ d pre (hQ d hd) hlog.symm
+      exfalso
+      cases t1 with
+      | nil => simp at h2; rw [← h2.1] at hf; simp at hf
+      | cons x t1 => simp at h2
+    · rename_i f' hf'
+      obtain ⟨t, hfin, ht⟩ := finish_shape orc (hExec c.filename c.argv f') (d ++ [⟨execCall c, some f'⟩])
+      rw [hfin] at hlog
+      simp only [List.append_assoc] at hlog
+      obtain ⟨t1, _, h2⟩ := skip_prefix (fun e => e.res = some f ∧ reasonFor c e.call f = some m) ⟨hf, hr⟩ d pre (hQ d hd) hlog.symm
+      cases t1 with
+      | nil =>
+        simp at h2
+        obtain ⟨hb, hp⟩ := h2
+        rw [← hb] at hf hr
+        simp at hf; subst hf
+        have hrep := execReason_handler c f' m (by simpa [execCall, reasonFor] using hr)
+        rcases ht with rfl | ⟨m', hm', rfl⟩
+        · rw [hrep] at *; simp at hfin
+          exfalso
+          rw [finish_report] at hfin
+          have := congrArg List.length hfin
+          simp [finalEvs] at this
+        · rw [hrep] at hm'; cases hm'
+          rw [← hp]; exact ⟨_, _, rfl⟩
+      | cons x t1 =>
+        exfalso
+        simp at h2
+        have hmem : bad ∈ t1 ++ bad :: post := by simp
+        rw [← h2.2] at hmem
+        rcases List.mem_append.mp hmem with hm | hm
+        · rcases ht with rfl | ⟨m', _, rfl⟩
+          · simp at hm
+          · simp at hm; subst hm; exact hwrite _ _ _ ⟨hf, hr⟩
+        · exact hfinal _ bad hm ⟨hf, hr⟩
+  · obtain ⟨t, hfin, ht⟩ := finish_shape orc a (d ++ [bad'])
+    rw [hrun, hfin] at hlog
+    simp only [List.append_assoc] at hlog
+    obtain ⟨t1, _, h2⟩ := skip_prefix (fun e => e.res = some f ∧ reasonFor c e.call f = some m) ⟨hf, hr⟩ d pre (hQ d hd) hlog.symm
+    cases t1 with
+    | nil =>
+      simp at h2
+      obtain ⟨hb, hp⟩ := h2
+      subst hb
+      have hrep := ha f m hf hr
+      rcases ht with rfl | ⟨m', hm', rfl⟩
+      · exfalso
+        subst hrep
+        rw [finish_report] at hfin
+        have := congrArg List.length hfin
+        simp [finalEvs] at this
+      · rw [hrep] at hm'; cases hm'
+        rw [← hp]; exact ⟨_, _, rfl⟩
+    | cons x t1 =>
+      exfalso
+      simp at h2
+      have hmem : bad ∈ t1 ++ bad :: post := by simp
+      rw [← h2.2] at hmem
+      rcases List.mem_append.mp hmem with hm | hm
+      · rcases ht with rfl | ⟨m', _, rfl⟩
+        · simp at hm
+        · simp at hm; subst hm; exact hwrite _ _ _ ⟨hf, hr⟩
+      · exact hfinal _ bad hm ⟨hf, hr⟩
+  · exfalso
+    rw [hrun, finish_report] at hlog
+    obtain ⟨t1, _, h2⟩ := skip_prefix (fun e => e.res = some f ∧ reasonFor c e.call f = some m) ⟨hf, hr⟩ d pre (hQ d hd) hlog.symm
+    have hmem : bad ∈ (⟨.write write_fd (msgSetuid u reasonNonRoot), orc d.length (.write write_fd (msgSetuid u reasonNonRoot))⟩ : Ev) :: finalEvs orc (d.length + 1) := by
+      rw [h2]; simp
+    rcases List.mem_cons.mp hmem with hm | hm
+    · subst hm; exact hwrite _ _ _ ⟨hf, hr⟩
+    · exact hfinal _ bad hm ⟨hf, hr⟩
+
+/-- **never_returns.**  The log always ends with `_exit(127)` — preceded by the final message —
+    unless `execve` succeeded, in which case the successful `execve` is the last entry.  (Fix of
+    F19: this holds also when the final `write` itself fails.) -/
+theorem never_returns (c : Cfg) (orc : Oracle) :
+    (∃ pre r, childLog c orc = pre ++ lastWords r) ∨
+    (∃ pre, childLog c orc = pre ++ [⟨.execve c.filename c.argv (childEnv c), none⟩]) := by
+  have hfin : ∀ a log, ∃ pre r, finish orc a log = pre ++ lastWords r := by
+    intro a log
+    obtain ⟨t, h, _⟩ := finish_shape orc a log
+    obtain ⟨r, hr⟩ := finalEvs_eq orc (log.length + t.length)
+    exact ⟨log ++ t, r, by rw [h, hr]⟩
+  rcases childLog_cases c orc with ⟨d, _, _, _, hrun⟩ | ⟨d, bad, a, _, _, _, _, _, hrun⟩ | ⟨d, u, _, _, _, _, hrun⟩
+  · rw [hrun]
+    unfold execStage
+    split
+    · exact Or.inr ⟨d, rfl⟩
+    · exact Or.inl (hfin _ _)
+  · rw [hrun]; exact Or.inl (hfin _ _)
+  · rw [hrun]; exact Or.inl (hfin _ _)
+
+/-- nothing follows `_exit`, and nothing follows a successful `execve` -/
+theorem nothing_after_the_end (c : Cfg) (orc : Oracle) (pre post : List Ev) (ev : Ev)
+    (hlog : childLog c orc = pre ++ ev :: post)
+    (hend : Terminal ev) : post = [] := by
+  have hQd : ∀ d : List Ev, (∀ e ∈ d, OkEv e ∧ e.call.isPrep = true) →
+      ∀ e ∈ d, ¬ Terminal e := by
+    intro d hd e he hx
+    have := (hd e he).2
+    rcases hx with ⟨n, hn⟩ | ⟨hx, _⟩
+    · rw [hn] at this; simp [Call.isPrep] at this
+    · cases hc : e.call <;> simp_all [Call.isExecve, Call.isPrep]
+  -- generic: in `d ++ [x] ++ t ++ finalEvs` with x, t not terminal, a terminal event is the very last
+  have key : ∀ (d mid : List Ev) (n : Nat), (∀ e ∈ d, OkEv e ∧ e.call.isPrep = true) →
+      (∀ e ∈ mid, ¬ Terminal e) →
+      pre ++ ev :: post = d ++ (mid ++ finalEvs orc n) → post = [] := by
+    intro d mid n hd hmid h
+    obtain ⟨t1, _, h2⟩ := skip_prefix Terminal hend d pre (hQd d hd) h
+    obtain ⟨t2, _, h3⟩ := skip_prefix Terminal hend mid t1 hmid h2.symm
+    cases t2 with
+    | nil =>
+      simp [finalEvs] at h3
+      rw [← h3.1] at hend
+      simp [Terminal, Call.isExecve] at hend
+    | cons x t2 =>
+      cases t2 with
+      | nil => simp [finalEvs] at h3; first | exact h3.2.2 | exact h3.2.2.symm
+      | cons y t2 => simp [finalEvs] at h3
+  rcases childLog_cases c orc with ⟨d, _, _, hd, hrun⟩ | ⟨d, bad, a, hd, hprep, hne, _, _, hrun⟩ | ⟨d, u, hd, _, _, _, hrun⟩
+  · rw [hrun] at hlog
+    unfold execStage at hlog
+    split at hlog
+    · obtain ⟨t1, _, h2⟩ := skip_prefix Terminal hend d pre (hQd d hd) hlog.symm
+      cases t1 with
+      | nil => simp at h2; first | exact h2.2 | exact h2.2.symm
+      | cons x t1 => simp at h2
+    · rename_i f hf
+      obtain ⟨t, hfin, ht⟩ := finish_shape orc (hExec c.filename c.argv f) (d ++ [⟨execCall c, some f⟩])
+      rw [hfin] at hlog
+      apply key d ([⟨execCall c, some f⟩] ++ t) _ hd _ (by simpa using hlog.symm)
+      intro e he hx
+      rcases List.mem_append.mp he with he | he
+      · simp at he; subst he
+        rcases hx with ⟨n, hn⟩ | ⟨_, hx⟩
+        · simp [execCall] at hn
+        · simp at hx
+      · rcases ht with rfl | ⟨m, _, rfl⟩
+        · simp at he
+        · simp at he; subst he; simp [Terminal, Call.isExecve] at hx
+  · obtain ⟨t, hfin, ht⟩ := finish_shape orc a (d ++ [bad])
+    rw [hrun, hfin] at hlog
+    apply key d ([bad] ++ t) _ hd _ (by simpa using hlog.symm)
+    intro e he hx
+    rcases List.mem_append.mp he with he | he
+    · simp at he; subst he
+      rcases hx with ⟨n, hn⟩ | ⟨_, hx⟩
+      · rw [hn] at hprep; simp [Call.isPrep] at hprep
+      · exact hne hx
+    · rcases ht with rfl | ⟨m, _, rfl⟩
+      · simp at he
+      · simp at he; subst he; simp [Terminal, Call.isExecve] at hx
+  · rw [hrun, finish_report] at hlog
+    apply key d [⟨.write write_fd (msgSetuid u reasonNonRoot), orc d.length (.write write_fd (msgSetuid u reasonNonRoot))⟩] _ hd _ (by simpa using hlog.symm)
+    intro e he hx
+    simp at he; subst he; simp [Terminal, Call.isExecve] at hx
+
+/-- **any_failure_exits_127.**  After *any* failing call that is not ignored (every plausible or
+    implausible exception at every call, including the ones `reasonFor` does not list), the log
+    ends with the final message and `_exit(127)`, and no `execve` is attempted after it. -/
+theorem any_failure_exits_127 (c : Cfg) (orc : Oracle) (pre post : List Ev) (bad : Ev)
+    (hlog : childLog c orc = pre ++ bad :: post) (hbad : ¬ OkEv bad) :
+    (∃ pre' r, childLog c orc = pre' ++ lastWords r) ∧ ∀ ev ∈ post, ev.call.isExecve = false := by
+  constructor
+  · rcases never_returns c orc with h | ⟨pre', h⟩
+    · exact h
+    · exfalso
+      -- a successful execve as last entry: everything before it succeeded, and it is not `bad`
+      have hx := exec_preconditions c orc pre' [] _ h rfl
+      rw [h] at hlog
+      have : bad ∈ pre' ++ [⟨Call.execve c.filename c.argv (childEnv c), none⟩] := by rw [hlog]; simp
+      rcases List.mem_append.mp this with hm | hm
+      · exact hbad (hx.2.2.1 bad hm)
+      · simp at hm; subst hm; exact hbad (Or.inl rfl)
+  · intro ev hev
+    obtain ⟨mid, post', hsplit⟩ := List.append_of_mem hev
+    exact no_exec_after_failure c orc pre mid post' bad ev (by rw [hlog, hsplit]) hbad
+
+/-! ### F22 (open): `os.setuid` raising is not reported -/
+
+/-- root supervisord, program user 33 -/
+def cfgF22 : Cfg :=
+  { fcgi := false, sockFd := 0, pin := 10, pout := 11, perr := 12, redirect := false, minfds := 3,
+    uid := some 33, curUid := 0, pwName := "www", pwGid := 33, grdb := [], osenv := [], name := "p",
+    group := none, serverurl := none, optServerurl := none, environment := none, directory := none,
+    umask := none, filename := "/bin/cat", argv := ["/bin/cat"] }
+
+/-- `os.setuid` (10th call) fails with EPERM -/
+def orcF22 : Oracle := fun i _ => if i = 9 then some (.oserr 1 "EPERM") else none
+
+/-- the counterexample to the full `failure_message_and_127`: `setuid` fails, and the next call is
+    already the final message — the reason is never written (the exit status is still 127 and
+    the command is not executed). -/
+theorem f22_setuid_raises_no_reason :
+    (childLog cfgF22 orcF22).drop 9 =
+      [⟨.setuid 33, some (.oserr 1 "EPERM")⟩, ⟨.write 2 msg_not_spawned, none⟩, ⟨.exit 127, none⟩] := by
+  decide
+
+/-- the generated exception-guard table says the same: `os.setuid` is inside no `try` -/
+theorem f22_setuid_unguarded : dp_calls.lookup "os.setuid" = some "" := by decide
+
+/-! ### Non-vacuity: concrete runs of every kind -/
+
+def cfgEx : Cfg :=
+  { cfgF22 with fcgi := true, sockFd := 7, redirect := true, minfds := 5, directory := some "/srv",
+                umask := some 18, osenv := [("PATH", "/bin"), ("SUPERVISOR_ENABLED", "0")],
+                environment := some [("A", "1"), ("PATH", "/opt")], group := some "g",
+                optServerurl := some "unix:///s" }
+
+-- no fault: the promised calls, then the successful execve, and nothing else
+example : (childLog cfgEx (fun _ _ => none)).map (·.call) = promisedCalls cfgEx ++ [execCall cfgEx] := by decide
+example : envGet (childEnv cfgEx) "PATH" = some "/opt" ∧ envGet (childEnv cfgEx) "SUPERVISOR_ENABLED" = some "1" ∧
+    envGet (childEnv cfgEx) "SUPERVISOR_GROUP_NAME" = some "g" ∧ envGet (childEnv cfgEx) "SUPERVISOR_SERVER_URL" = some "unix:///s" := by decide
+-- chdir fails (hypotheses of failure_message_and_127_partial are satisfiable)
+example : reasonFor cfgEx (.chdir "/srv") (.oserr 2 "ENOENT") = some (msgChdir "/srv" "ENOENT") := by decide
+example : (childLog cfgEx (fun i _ => if i = 13 then some (.oserr 2 "ENOENT") else none)).drop 13 =
+    [⟨.chdir "/srv", some (.oserr 2 "ENOENT")⟩, ⟨.write 2 (msgChdir "/srv" "ENOENT"), none⟩] ++ lastWords none := by decide
+-- the final write fails too (F19): still _exit(127)
+example : (childLog cfgEx (fun i _ => if i ≥ 13 then some (.oserr 9 "EBADF") else none)).drop 13 =
+    [⟨.chdir "/srv", some (.oserr 9 "EBADF")⟩, ⟨.write 2 (msgChdir "/srv" "EBADF"), some (.oserr 9 "EBADF")⟩] ++
+      lastWords (some (.oserr 9 "EBADF")) := by decide
+-- non-root refusal
+example : ¬ CanSwitch { cfgF22 with curUid := 500 } := by
+  intro h; have := h 33 rfl; simp [cfgF22] at this
+
 end Sv.Props.C18
